@@ -441,6 +441,15 @@ def callable_env(forest, mod, interp, extra_env=None):
                 if v.mod not in foreign:
                     foreign[v.mod] = callable_env(forest, v.mod, interp)
                 genv[k] = FuncVal(v.node, foreign[v.mod], interp)
+    for k, v in list(genv.items()):
+        if isinstance(v, FuncRef) and isinstance(v.node, ast.ClassDef) and not _is_exception_class(v.node, genv):
+            if v.mod == mod:
+                genv[k] = ClassVal(forest, mod, v.node, genv, interp)
+            else:
+                if v.mod not in foreign:
+                    foreign[v.mod] = callable_env(forest, v.mod, interp)
+                genv[k] = ClassVal(forest, v.mod, v.node, foreign[v.mod], interp)
+
     def deep(v, depth=0):
         # functions referenced from module-level tuples / lists / dicts (dispatch tables) become callable, too
         if isinstance(v, FuncRef) and isinstance(v.node, ast.FunctionDef):
@@ -468,9 +477,139 @@ def callable_env(forest, mod, interp, extra_env=None):
     return genv
 
 
+def _is_exception_class(node, genv, depth=0):
+    for b in node.bases:
+        if isinstance(b, ast.Name):
+            v = genv.get(b.id, _evmod._BUILTINS.get(b.id))
+            if isinstance(v, type) and issubclass(v, BaseException):
+                return True
+            if isinstance(v, FuncRef) and isinstance(v.node, ast.ClassDef) and depth < 4 and _is_exception_class(v.node, genv, depth + 1):
+                return True
+    return False
+
+
+class ClassVal:
+    """A class of the repository as something the interpreter can call.  A class derived from a namedtuple becomes a real
+    tuple subclass whose methods and properties are interpreted; any other class gives an `Instance`."""
+
+    _model = None       # set below: every public attribute is looked up in the class body
+
+    def __init__(self, forest, mod, node, genv, interp):
+        self._meta = (forest, mod, node, genv, interp)
+        self.name = self.__name__ = node.name
+        self._pycls = None
+
+    def _tuple_class(self):
+        forest, mod, node, genv, it = self._meta
+        if self._pycls is not None:
+            return self._pycls or None
+        base = None
+        if len(node.bases) == 1:
+            try:
+                b = ev(node.bases[0], genv)
+            except Unknown:
+                b = None
+            if isinstance(b, ClassVal):
+                b = b._tuple_class()
+            if isinstance(b, type) and issubclass(b, tuple):
+                base = b
+        if base is None:
+            self._pycls = False
+            return None
+        ns = {'__slots__': ()}
+        cv = self
+        holder = []
+        genv = dict(genv)
+        genv['super'] = lambda *a: _Super(holder[0])
+        for st in node.body:
+            if isinstance(st, ast.FunctionDef):
+                decos = [d.id if isinstance(d, ast.Name) else getattr(d, 'attr', None) for d in st.decorator_list]
+                fv = FuncVal(st, genv, it)
+                if st.name == '__new__':
+                    def __new__(cls, *a, _fv=fv, **k):
+                        return _fv(cls, *a, **k)
+                    ns['__new__'] = __new__
+                elif 'property' in decos:
+                    ns[st.name] = property(lambda self, _fv=fv: _fv(self))
+                elif 'staticmethod' in decos:
+                    ns[st.name] = staticmethod(lambda *a, _fv=fv, **k: _fv(*a, **k))
+                elif 'classmethod' in decos:
+                    ns[st.name] = classmethod(lambda cls, *a, _fv=fv, **k: _fv(cv, *a, **k))
+                else:
+                    ns[st.name] = (lambda self, *a, _fv=fv, **k: _fv(self, *a, **k))
+            elif isinstance(st, ast.Assign) and len(st.targets) == 1 and isinstance(st.targets[0], ast.Name) and st.targets[0].id != '__slots__':
+                ns[st.targets[0].id] = ev(st.value, genv)
+        self._pycls = type(node.name, (base,), ns)
+        self._pycls._classval = self
+        holder.append(self._pycls)
+        return self._pycls
+
+    def __call__(self, *args, **kw):
+        forest, mod, node, genv, it = self._meta
+        pc = self._tuple_class()
+        if pc is not None:
+            return pc(*args, **kw)
+        return Instance.new(forest, mod, node.name, genv, it, *args, **kw)
+
+    def __getattr__(self, name):
+        if name.startswith('_'):
+            raise AttributeError(name)
+        forest, mod, node, genv, it = self._meta
+        pc = self._tuple_class()
+        if pc is not None:
+            return getattr(pc, name)
+        for st in node.body:
+            if isinstance(st, ast.FunctionDef) and st.name == name:
+                decos = [d.id if isinstance(d, ast.Name) else getattr(d, 'attr', None) for d in st.decorator_list]
+                fv = FuncVal(st, genv, it)
+                if 'staticmethod' in decos:
+                    return fv
+                if 'classmethod' in decos:
+                    return lambda *a, **k: fv(self, *a, **k)
+                return fv
+            if isinstance(st, ast.Assign) and len(st.targets) == 1 and isinstance(st.targets[0], ast.Name) and st.targets[0].id == name:
+                return ev(st.value, genv)
+        raise AttributeError(name)
+
+    def instancecheck(self, obj):
+        pc = self._tuple_class()
+        if pc is not None:
+            return isinstance(obj, pc)
+        return isinstance(obj, Instance) and object.__getattribute__(obj, '_meta')[2] == self.name
+
+
+class _Super:
+    """``super(C, cls)`` / ``super()`` inside an interpreted ``__new__`` of a tuple subclass."""
+    _model = ('__new__',)
+
+    def __init__(self, pycls):
+        self._pycls = pycls
+
+    def __getattribute__(self, name):
+        if name == '__new__':
+            base = object.__getattribute__(self, '_pycls').__mro__[1]
+            return lambda cls, *a, **k: base.__new__(cls, *a, **k)
+        return object.__getattribute__(self, name)
+
+
+def _super(*args):
+    if len(args) == 2:
+        c = args[0]
+        pc = c._tuple_class() if isinstance(c, ClassVal) else c
+        if isinstance(pc, type):
+            return _Super(pc)
+    raise Unknown('super() outside the modelled use (super(Class, cls).__new__ of a tuple subclass)')
+
+
+_evmod._BUILTINS.setdefault('super', _super)
+
+
 class _AnyName:
     def __contains__(self, name):
         return True
+
+
+ClassVal._model = _AnyName()
 
 
 class Instance:
@@ -522,6 +661,12 @@ class Instance:
 
     def __iter__(self):
         return iter(self._dunder('__iter__'))
+
+    def __call__(self, *args, **kw):
+        forest, mod, clsname, genv, it = object.__getattribute__(self, '_meta')
+        if not forest.has_func(mod, f'{clsname}.__call__'):
+            raise TypeError(f'{clsname!r} object is not callable')
+        return FuncVal(forest.func(mod, f'{clsname}.__call__'), genv, it)(self, *args, **kw)
 
     def __len__(self):
         return self._dunder('__len__')
